@@ -79,8 +79,8 @@ LAZY = ("IntoIterator::into_iter", "[T]::iter", "Iterator::rev", "Iterator::map"
         "Iterator::copied", "Iterator::filter", "Iterator::flat_map", "Iterator::flatten", "Iterator::chain", "iter::repeat_n", "iter::repeat_with", "iter::repeatn",
         "IntoParallelIterator::into_par_iter", "ParallelIterator::map_init", "ParallelIterator::map", "Distribution::sample_iter")
 CONSUMERS = ("Iterator::collect", "Iterator::sum", "Iterator::count", "Iterator::max", "Iterator::min", "Iterator::last", "Iterator::fold", "Iterator::for_each",
-             "Iterator::try_for_each", "Iterator::all", "Iterator::any", "Iterator::find", "Iterator::position", "ParallelIterator::collect", "FromIterator::from_iter",
-             "Extend::extend", "Vec::extend")
+             "Iterator::try_for_each", "Iterator::all", "Iterator::any", "Iterator::find", "Iterator::position", "ParallelIterator::collect", "FromIterator::from_iter")
+# (Extend::extend / Vec::extend consume an iterator too, but they change their receiver: always an effect)
 TRANSPARENT = ("Deref::deref", "DerefMut::deref_mut", "Vec::as_slice", "Vec::as_mut_slice", "Borrow::borrow", "BorrowMut::borrow_mut")
 NUMCONV = ("NonZero::get",)
 SWAP = {"Gt": "Lt", "Ge": "Le"}
@@ -293,6 +293,8 @@ class Summariser:
 
     def has_effectful_closure(self, e):
         for x in sym.subexprs(e):
+            if isinstance(x, tuple) and x and x[0] == "call" and x[1] in ("rand::distr::Distribution::sample_iter", "rand::Rng::sample_iter", "rand::Rng::random_iter"):
+                return True          # an iterator that draws from a generator each time it is advanced
             if isinstance(x, tuple) and x and x[0] == "agg" and x[1] == "closure" and self.closure_effectful(x):
                 return True
             if isinstance(x, tuple) and x and x[0] == "fnitem":
@@ -337,6 +339,15 @@ class Summariser:
                     return ("rep", self.ex(n), b)
         if callee_is(e, "Iterator::take") and len(e[3]) == 2:
             src = sym.strip_refs(e[3][0])
+            if src[0] == "call" and src[1] == "rand::distr::Distribution::sample_iter" and len(src[3]) == 2:
+                # distr.sample_iter(rng).take(n): n times distr.sample(rng) - the body a closure `|| distr.sample(rng)` has
+                from .canon import _as_parts
+                pp = _as_parts(src[2] or "")
+                if not (pp and len(pp[2]) == 1):
+                    return None
+                call = ("call", "rand::distr::Distribution::sample->" + normfull(pp[2][0]), (self.ex(src[3][0]), self.ex(src[3][1])), 0)
+                key = ((), (repr(("call", call)),), repr(call), "return", (), ())
+                return ("rep", self.ex(e[3][1]), hashlib.sha1(repr(sorted([repr(key)])).encode()).hexdigest())
             if callee_is(src, "iter::repeat_with") and len(src[3]) == 1 and clo(src[3][0]):
                 return ("rep", self.ex(e[3][1]), body(clo(src[3][0]), ()))
         if callee_is(e, "ParallelIterator::map_init") and len(e[3]) == 3 and clo(e[3][2]):
@@ -443,6 +454,8 @@ class Summariser:
                 for i, ch in enumerate(e[2]):
                     if ch == "<":
                         depth += 1
+                    elif ch == ">" and i > 0 and e[2][i - 1] == "-":
+                        continue          # the arrow of a fn() -> T type
                     elif ch == ">":
                         depth -= 1
                         if depth == 0:
@@ -450,6 +463,26 @@ class Summariser:
                             break
                 if pp and close is not None and e[2][close + 1:close + 3] == "::":
                     return ("call", normfull("%s::%s" % (pp[1], e[2][close + 3:])), args, self.order.get(e[4]))
+            if len(args) == 2 and e[1] in ("rand::Rng::sample", "rand::distr::Distribution::sample"):
+                # rng.sample(distr) is by definition distr.sample(rng); what identifies the call is the distribution value
+                # and the type it yields (one value can implement Distribution<T> for several T)
+                from .canon import _as_parts, _split_generic_args
+                out_ty = None
+                f_ = e[2] or ""
+                if e[1] == "rand::distr::Distribution::sample":
+                    pp = _as_parts(f_)
+                    if pp and len(pp[2]) == 1:
+                        out_ty = pp[2][0]
+                    d_, r_ = args
+                else:
+                    k = f_.rfind("::sample::<")
+                    if k >= 0:
+                        ga = _split_generic_args(f_[k + len("::sample::<"):-1])
+                        if ga:
+                            out_ty = ga[0]
+                    d_, r_ = args[1], args[0]
+                if out_ty is not None:
+                    return ("call", "rand::distr::Distribution::sample->" + normfull(out_ty), (d_, r_), self.order.get(e[4]))
             if len(args) == 2 and callee_is(e, *COMMUTATIVE):
                 args = tuple(sorted(args, key=repr))
             return ("call", normfull(e[2] or e[1]), args, self.order.get(e[4]))
